@@ -6,6 +6,7 @@ import (
 	"verif/checker/internal/effects"
 	"verif/checker/internal/load"
 	"verif/checker/internal/report"
+	"verif/checker/internal/rules"
 )
 
 // runDev runs one rule of one property (or a rule under development that is
@@ -25,6 +26,7 @@ func runDev(id string) int {
 		return 2
 	}
 	effects.Of(prog)
+	rules.InstallPredicates(prog)
 	res := rule.Run(prog)
 	res.DedupKeys()
 	for _, o := range res.Obligations {
